@@ -311,6 +311,8 @@ def classify(route, sec, key, typ, value, ref, obs_kind, obs):
     behaviour for this input, else None.
     obs_kind: "stored" (obs = stored value), "raised" (obs = exception), "absent"."""
     if typ == "fboolorfloat" and obs_kind == "raised" and isinstance(obs, ValueError) \
+            and ref is not None and ref.kind == "ok" \
+            and mt.kind_of(value) in ("npbool", "npint", "npfloat", "ndarray0") \
             and FBOF_MSG in str(obs) and dm_fboolorfloat_raises(value):
         return "fboolorfloat-rejects-numpy-scalars"
     if typ == "fintlist" and obs_kind == "stored" and ref is not None \
